@@ -296,6 +296,21 @@ func zvC19Mutants(s zvSeed, thorough bool) []zvC19Case {
 		}
 		off += len(ab)
 	}
+	// (b') every attribute with a value that is really longer / shorter (the message stays structurally consistent: only
+	// the attribute's own length rule is violated, nothing shifts)
+	for i, a := range s.attrs {
+		for _, d := range []int{-1, 1, 2, 4} {
+			n := len(a.Val) + d
+			if n < 0 || n > 255 && a.Flags&0x10 == 0 {
+				continue
+			}
+			attrs := append([]zvwAttr{}, s.attrs...)
+			v := make([]byte, n)
+			copy(v, a.Val)
+			attrs[i] = zvwAttr{a.Flags, a.Type, v}
+			add(fmt.Sprintf("attr%d-resized%+d(to %d)", a.Type, d, n), s.build(attrs))
+		}
+	}
 	// (c) prefix lengths beyond the family's maximum
 	pfxLens := []int{33, 34, 40, 63, 64, 65, 127, 128, 129, 130, 200, 255}
 	if thorough {
